@@ -247,15 +247,60 @@ def requestsAggregation (rs : List (AReq κ α)) : List (AReq κ α) :=
 
 end aggregation
 
-/-- the disjunction bookkeeping loop `for this_d in disjlist: if cond: disjlist.remove(this_d)`: removing while
-iterating skips the element that follows a removed one -/
-def removeWhileIterating {δ : Type} (cond : δ → Bool) : List δ → List δ
-  | [] => []
-  | [d] => if cond d then [] else [d]
-  | d :: d2 :: rest =>
-    if cond d then d2 :: removeWhileIterating cond rest
-    else d :: removeWhileIterating cond (d2 :: rest)
+/-! ## requests_aggregation with disjunctions -/
 
+/-- a disjunction (synchronization vector): id and the request ids it lists -/
+structure Disj where
+  id : String
+  reqs : List String
+
+/-- `temp = []; for d in dis: temp.extend(d.disjunctions_req); temp.remove(rid)` -/
+def othersOf (ds : List Disj) (rid : String) : List String :=
+  ds.foldl (fun acc d => (acc ++ d.reqs).erase rid) []
+
+def sameSet (a b : List String) : Bool := a.all (fun x => b.contains x) && b.all (fun x => a.contains x)
+
+/-- the `same_disj` flag of `compare_reqs` -/
+def sameDisj (ds : List Disj) (id1 id2 : String) : Bool :=
+  let d1 := ds.filter (fun d => d.reqs.contains id1)
+  let d2 := ds.filter (fun d => d.reqs.contains id2)
+  if !d1.isEmpty && !d2.isEmpty then sameSet (othersOf d1 id1) (othersOf d2 id2)
+  else d1.isEmpty && d2.isEmpty
+
+section
+variable {κ α : Type} [DecidableEq κ] [Add α]
+
+/-- inner loop with disjunctions: returns the updated list and the absorbing request's OLD and NEW id -/
+def absorbIntoD (ds : List Disj) (req : AReq κ α) : List (AReq κ α) → Option (List (AReq κ α) × String × String)
+  | [] => none
+  | t :: rest =>
+    if req.idStr ≠ t.idStr ∧ req.key = t.key ∧ sameDisj ds req.idStr t.idStr = true ∧ t.hasMode = true then
+      some (absorb t req :: rest, t.idStr, (absorb t req).idStr)
+    else (absorbIntoD ds req rest).map (fun x => (t :: x.1, x.2))
+
+/-- `d.disjunctions_req.remove(x); d.disjunctions_req.append(y)` when `x in d.disjunctions_req` -/
+def renameIn (x y : String) (d : Disj) : Disj :=
+  if d.reqs.contains x then { d with reqs := d.reqs.erase x ++ [y] } else d
+
+/-- one turn of the outer loop, with the disjunction bookkeeping (as repaired in /repo 35835fb6): in every
+disjunction the absorbed request's id, and then the absorbing request's OLD id, are replaced by the joined id; no
+disjunction is dropped -/
+def aggStepD (st : List (AReq κ α) × List Disj) (i : Nat) : List (AReq κ α) × List Disj :=
+  match st.1.find? (fun r => r.pos == i) with
+  | none => st
+  | some req =>
+    match absorbIntoD st.2 req st.1 with
+    | none => st
+    | some (l', oldId, newId) =>
+      let ds1 := st.2.map (renameIn req.idStr newId)
+      let ds2 := ds1.map (renameIn oldId newId)
+      (l'.filter (fun r => r.pos != i), ds2)
+
+/-- `requests_aggregation(pathreqlist, disjlist)` -/
+def requestsAggregationD (rs : List (AReq κ α)) (ds : List Disj) : List (AReq κ α) × List Disj :=
+  (List.range rs.length).foldl aggStepD (rs, ds)
+
+end
 /-! ## jsontocsv -/
 
 section csv
